@@ -4,7 +4,7 @@ from vf import gen, corecheck as cc, framework as fw, model_pubsub
 RULE = ("sysnotif profile: 2-5 modules subscribing (literal, some catch-all regex) to the five system topics before and during "
         "1-3 loop runs while the other modules are started, paused, resumed, stopped, pilled and deregistered from every place; "
         "optional context tick; both driving modes; tick_rearm profile: the tick is re-configured inside the running loop (1-2 ms -> 40-100 ms, "
-        "optionally off in between) and the run then lasts 20-30 ms of real time; paused_subscriber profile: the subscriber is PAUSED when the loop starts / "
+        "optionally off in between) and the run then lasts 20-30 ms of real time; flush_many_changes profile: 4-9 subscribers of the loop-stopped notification whose handlers, run by the final flush, register / deregister modules other than their own (several changes of the module table during one flush); paused_subscriber profile: the subscriber is PAUSED when the loop starts / "
         "when the last running module stops and is resumed before the run ends. Soundness: per recipient the n-th notification (topic, named module) must be "
         "preceded by >= n observed occurrences of that transition / loop event, carries no payload, loop notifications name nobody, "
         "the internal poison pill is never handed over; tick count <= elapsed/period + 1 per arming. Completeness (clean cases "
@@ -38,6 +38,11 @@ def run(tier):
     for k in range(16 if tier == "quick" else 300):
         c = cc.Case()
         c.sc, c.profile, c.mode, c.seed = gen.gen_paused_subscriber(seed * 1000 + k), "paused_subscriber", "dispatch", seed * 1000 + k
+        cases.append(c)
+
+    for k in range(24 if tier == "quick" else 600):
+        c = cc.Case()
+        c.sc, c.profile, c.mode, c.seed = gen.gen_flush_many_changes(seed * 1000 + k), "flush_many_changes", ("loop" if k % 2 else "dispatch"), seed * 1000 + k
         cases.append(c)
 
     def oracle(case):
